@@ -8,6 +8,7 @@ Abstraction: `Ring.content r` (oldest first); spec = bounded FIFO `BQ` on `List 
 import Golib.Proof.C10Refine
 import Golib.Proof.C10SyncRefine
 import Golib.Proof.C10Large
+import Golib.Proof.C10History
 import Golib.Proof.C10Copy
 import Golib.Proof.C10C01
 import Golib.Gen.FactsC10
@@ -187,6 +188,37 @@ theorem c10_ring_len_no_overflow (r : Ring) (hi : r.Inv) (hc : r.cap ≤ 2 ^ 63 
 (spec-level run, which is what the oracle answers for `ringZ` cases). -/
 example : ((⟨[], 2 ^ 63 - 1⟩ : BQ).lrun [.fill 2 0, .one .len, .one .isFull, .one (.recap 1), .one (.recap 2), .one .cap]).2
     = ["2", "2", "false", "false", "true", "2"] := by decide +kernel
+
+/-- Histories with `Init` on the EXISTING ring, any number of times, with any positive
+capacities (smaller, equal, larger), interleaved with every other operation incl. `Recap`
+and `PushWithExpand`: from every invariant state the model never panics and prints what
+the bounded FIFO prints, where `Init(c)` is "the empty FIFO of capacity `c`"; a
+non-positive `Init` panics (second conjunct).  Every history, not only the generated ones. -/
+theorem c10_ring_refines_reinit (r : Ring) (hi : r.Inv) (hs : List HOp) (hp : HOp.initsPositive hs) :
+    (∃ r', r.hrun hs = some (r', (r.abs.hrun hs).2) ∧ r'.Inv ∧ r'.abs = (r.abs.hrun hs).1) ∧
+    ∀ (r0 : Ring) (c : Int) (tl : List HOp), c ≤ 0 → r0.hrun (.init c :: tl) = none :=
+  ⟨hrun_refines hs r hi hp, fun r0 c tl hc => hrun_init_nonpos r0 c hc tl⟩
+
+/-- EVERY history of the never-initialised zero value (outside the property, made total):
+the single steps are `zeroOut` (Len 1, Cap 0, IsEmpty false, Recap(c ≤ 0) false, state
+unchanged; every other operation panics), so a history either panics at its first
+non-benign operation, or stays the zero value, or reaches an `Init(c)`, `c > 0`, after which
+it is a bounded-FIFO history (across Recap / PushWithExpand / further Inits). -/
+theorem c10_ring_zero_histories :
+    (∀ o, Ring.zero.step o = (zeroOut o).map fun s => (Ring.zero, s)) ∧
+    ∀ (pre : List Op), (∀ o ∈ pre, (zeroOut o).isSome) →
+      (∀ (c : Int) (rest : List HOp), 0 < c → HOp.initsPositive rest →
+        ∃ r', Ring.zero.hrun (pre.map HOp.op ++ .init c :: rest) =
+          some (r', pre.map (fun o => (zeroOut o).getD "") ++ "ok" :: ((⟨[], c⟩ : BQ).hrun rest).2)) ∧
+      (∀ (o : Op) (rest : List HOp), zeroOut o = none →
+        Ring.zero.hrun (pre.map HOp.op ++ .op o :: rest) = none) :=
+  ⟨zero_step, zero_hrun⟩
+
+/-- Non-vacuity: zero value, two benign calls, `Init(2)`, fill, expand, re-`Init(1)`. -/
+example : (Ring.zero.hrun [.op .len, .op (.recap 0), .init 2, .op (.push 1), .op (.push 2), .op (.pushx 3),
+      .op .cap, .init 1, .op (.push 9), .op .isFull, .op .pop]).map (·.2)
+    = some ["1", "false", "ok", "true", "true", "ok", "4", "ok", "true", "true", "9 true"] := by
+  decide +kernel
 
 /-- The zero value `var r Ring[T]` (never `Init`ialised; no capacity was requested, so it
 is outside the property) is NOT an empty ring of capacity 0: `head = tail = 0` makes
@@ -459,6 +491,34 @@ theorem c10_sync_refines_warped (n : Int) (h1 : 1 ≤ n) (h2 : n ≤ 2 ^ 31) (k 
       have : c' = c := by have := congrArg SyncRing.cap hinit; simpa [mkSync] using this
       rw [this]
   exact ⟨_, c, _, hinit, hcap, by rw [warp_mk c k hc]; exact hrun⟩
+
+/-- SyncRing (one goroutine) refines RING: for EVERY request `1 ≤ n ≤ 2^31` — powers of two
+or not — every history of `NewSync(n)` prints exactly what the same history prints on
+`New(c)` with `c` the least power of two ≥ max(2, n) (the rounding is the only difference
+between the two types sequentially); `PushWait/PopWait(maxWait ≥ 0)` read as Push/Pop. -/
+theorem c10_sync_refines_ring (n : Int) (h1 : 1 ≤ n) (h2 : n ≤ 2 ^ 31) (ops : List SOp) :
+    ∃ (c : Nat) (s : SyncRing) (r : Ring), syncCap n = some c ∧ SyncRing.init? n = some s ∧
+      Ring.init? c = some r ∧ max 2 n.toNat ≤ c ∧ (∀ e', max 2 n.toNat ≤ 2 ^ e' → c ≤ 2 ^ e') ∧
+      (s.run ops).map (·.2) = (r.run (ops.map SOp.toOp)).map (·.2) ∧ (s.run ops).isSome := by
+  obtain ⟨s0, c, e, hinit, hcap, hce, he1, _, hge, hleast⟩ := c10_cap_rounding n h1 h2
+  obtain ⟨s, c', s', hs, hc', hrun⟩ := c10_sync_refines_new n h1 h2 ops
+  have hss : s = s0 := by rw [hinit] at hs; exact (Option.some.inj hs).symm
+  subst hss
+  have hcc : c' = c := by rw [← hc', hcap]
+  subst hcc
+  have hpos : (0 : Int) < (c' : Int) := by
+    have : 2 ≤ c' := Nat.le_trans (Nat.le_max_left 2 _) hge
+    omega
+  obtain ⟨r, r', hr, hrrun, _⟩ := c10_ring_refines_new (c' : Int) hpos (ops.map SOp.toOp)
+  have hsc : syncCap n = some c' := by
+    simp only [SyncRing.init?] at hinit
+    cases hsy : syncCap n with
+    | none => simp [hsy] at hinit
+    | some c2 =>
+      simp only [hsy, Option.some.injEq] at hinit
+      have : c2 = s.cap := by rw [← hinit]
+      rw [this, hc']
+  exact ⟨c', s, r, hsc, hinit, hr, hge, hleast, by rw [hrun, hrrun]; rfl, by rw [hrun]; rfl⟩
 
 /-- `warp k` (what the harness does to a fresh ring through reflect+unsafe) is exactly
 the state `k` honest push/pop pairs lead to, for every `k` (beyond 2^32 included) and
